@@ -116,7 +116,11 @@ def run_shard(shard, tier, res):
                                        'trace': {}, 'times': []}, 'parse() raised %s: %s' % (type(e).__name__, e))
                 continue
             prev = None
-            for ti, t in enumerate(F.traces(shard['n'], values, len(decl))):
+            all_traces = list(F.traces(shard['n'], values, len(decl)))
+            # one specification object sees growing AND shrinking traces (stale per-object state of a longer evaluation
+            # must not leak into a shorter one): even positions ascending, then odd positions descending
+            all_traces = all_traces[::2] + all_traces[1::2][::-1]
+            for ti, t in enumerate(all_traces):
                 w = F.trace_dict(t, decl)
                 times = TIMECOLS[ti % 3](len(t))
                 case = {'formula': fj, 'spec': text, 'vars': decl, 'combined': combined, 'trace': w, 'times': times}
